@@ -432,5 +432,7 @@ func (in *Interp) parseDateSym(fr *frame, layout string, s *SymStr) value {
 	if !in.branch(okDay) {
 		return fail()
 	}
-	return tuple{in.mkDate(y, m, &Sym{T: dT}, 1, dim), iface{}}
+	res := in.mkDate(y, m, &Sym{T: dT}, 1, dim)
+	in.run.tmCivil[res.T.S] = [2]int64{y, m}
+	return tuple{res, iface{}}
 }
